@@ -134,6 +134,6 @@ func vpH_C02_bigmerge() {
 	m := vpLoad(mb)
 	n := len(surv)
 	half := uint64(n / 2)
-	vpBigCheck("bigmerge", m, surv, []uint64{1, half - 1, half, half + 1, 1023, 1024, 1025, uint64(n) - 1})
+	vpBigCheck("bigmerge", m, surv, []uint64{1, half - 1, half, half + 2, 1023, 1024, 1025, uint64(n) - 1})
 	vpReach("C02 bigmerge end")
 }
